@@ -53,7 +53,7 @@ struct CountdownObserver : Observer<Args...> {
 };
 
 struct Cover {
-    uint64_t countdownObservers = 0;
+    uint64_t countdownObservers = 0, longLifeRuns = 0, longLifeCycles = 0, burstObservers = 0;
     uint64_t histories = 0, ops = 0, notifies = 0, nestedNotifies = 0, calls = 0, inRoundActions = 0, staleRejected = 0;
     uint64_t selfUnsub = 0, unsubOther = 0, lazyRemovals = 0, handleMoves = 0, nontrivialCases = 0, maxDepth = 0, tokensDestroyed = 0;
     std::map<std::string, uint64_t> opCount, sigCount, actionCount;
@@ -446,6 +446,93 @@ void runCase(uint64_t seed, int steps, bool scripts, const char *sig) {
     if (!gCaseFailed) delete r;   // `other` and its observers go here
 }
 
+
+// ------------------------------------------------------------------ long lives and bursts
+// Whatever a Subject counts (subscription ids, removals, rounds) only shows at sizes no random history of a few
+// dozen steps reaches: one Subject lives through more than 2^16 subscriptions while early observers stay subscribed
+// (flat history, C05), and one callback subscribes and drops a burst of 2^8 / 2^16 / 2^17 (+-1) observers before it
+// unsubscribes a neighbour that has not been called yet (C10). Results are known exactly.
+void runLongLife(rt::Rng rng, bool burst) {
+    Subject<int> subj;
+    std::vector<int> order;   // ids in call order of the current round
+    auto obs = [&order](int id) { return [&order, id](int) { order.push_back(id); }; };
+    static const int64_t sizes[] = {255, 256, 257, 65535, 65536, 65537, 131072, 70000, 140000};
+    char d[200];
+    if (!burst) {
+        gProp = "C05";
+        int64_t n = sizes[3 + rng.below(6)];
+        if (rng.chance(500)) n = (int64_t) rng.range(300, 3000);
+        auto first = subj.subscribe(obs(1));
+        Subscription<int> mid;
+        int64_t midAt = (int64_t) rng.range(1, 400);
+        snprintf(d, sizeof d, "long life: %lld subscribe/unsubscribe cycles on one Subject<int>, a second resident joins at cycle %lld", (long long) n, (long long) midAt);
+        gHist = d;
+        rt::crumb("%s", d);
+        for (int64_t k = 0; k < n && !gCaseFailed; ++k) {
+            if (k == midAt) mid = subj.subscribe(obs(2));
+            auto temp = subj.subscribe(obs(3));
+            bool look = k < 4 || (k & (k + 1)) == 0 || (k >= 65530 && k <= 65540) || (k >= 131066 && k <= 131076) || rng.chance(2);
+            if (look) {
+                order.clear();
+                subj.notify((int) k);
+                std::vector<int> want = k >= midAt ? std::vector<int>{1, 2, 3} : std::vector<int>{1, 3};
+                if (order != want) { fail("C05", "long-life-delivery", "cycle", std::string(d) + ": at cycle " + std::to_string(k) + " a notify reached " + std::to_string(order.size()) + " observer(s) in an order other than residents first, newcomer last"); break; }
+            }
+            temp.unsubscribe();
+            if (look || k + 1 == n) {
+                if (!first.isValid() || (k >= midAt && !mid.isValid())) { fail("C05", "long-life-handle", "cycle", std::string(d) + ": after the newcomer of cycle " + std::to_string(k) + " unsubscribed, a resident's handle is no longer valid"); break; }
+                order.clear();
+                subj.notify((int) k);
+                std::vector<int> want = k >= midAt ? std::vector<int>{1, 2} : std::vector<int>{1};
+                if (order != want) { fail("C05", "long-life-delivery", "cycle", std::string(d) + ": after the newcomer of cycle " + std::to_string(k) + " unsubscribed, a notify reached " + std::to_string(order.size()) + " observer(s) instead of the resident(s)"); break; }
+            }
+        }
+        C.longLifeCycles += (uint64_t) n;
+    } else {
+        gProp = "C10";
+        int64_t kBurst = sizes[rng.below(7)];
+        bool keep = kBurst <= 257 && rng.chance(500);     // the burst stays subscribed: first invoked in the next round
+        snprintf(d, sizeof d, "burst: a callback subscribes %s %lld observers, then unsubscribes a neighbour that has not been called yet", keep ? "(and keeps)" : "and drops", (long long) kBurst);
+        gHist = d;
+        rt::crumb("%s", d);
+        std::vector<Subscription<int>> kept;
+        Subscription<int> victim;
+        bool armed = true;
+        auto a = subj.subscribe([&](int) {
+            order.push_back(1);
+            if (!armed) return;
+            armed = false;
+            for (int64_t k = 0; k < kBurst; ++k) {
+                auto t = subj.subscribe(obs(9));
+                if (keep) kept.push_back(std::move(t)); else t.unsubscribe();
+            }
+            victim.unsubscribe();
+        });
+        victim = subj.subscribe(obs(2));
+        auto z = subj.subscribe(obs(3));
+        order.clear();
+        subj.notify(1);
+        if (order != std::vector<int>{1, 3}) fail("C10", "burst-delivery", "round", std::string(d) + ": that round reached " + std::to_string(order.size()) + " observer(s) instead of the callback itself and the one neighbour that stayed");
+        else {
+            order.clear();
+            subj.notify(2);
+            std::vector<int> want{1, 3};
+            if (keep) want.insert(want.end(), (size_t) kBurst, 9);
+            if (order != want) fail("C10", "burst-delivery", "next-round", std::string(d) + ": the following round reached " + std::to_string(order.size()) + " observer(s), expected " + std::to_string(want.size()));
+        }
+        if (!gCaseFailed && (!a.isValid() || !z.isValid() || victim.isValid())) fail("C10", "burst-handle", "round", std::string(d) + ": handle validity is wrong afterwards");
+        C.burstObservers += (uint64_t) kBurst;
+    }
+    ++C.longLifeRuns;
+    ++C.histories;
+    if (!gCaseFailed) {
+        ++C.nontrivialCases;
+        rt::Hash h;
+        for (char c : gHist) h.add((uint64_t) c);
+        C.fps.push_back(h.get());
+    }
+}
+
 } // namespace
 
 int main(int argc, char **argv) {
@@ -458,6 +545,7 @@ int main(int argc, char **argv) {
         rt::Rng rng(rt::mix(rt::st().seed, c));
         gHist.clear();
         gCaseFailed = false;
+        if (rng.chance((unsigned) rt::optInt("longlife", 3))) { runLongLife(rng, allScripted || rng.chance(400)); continue; }
         bool scripts = allScripted || rng.chance(scriptShare);
         gProp = scripts ? "C10" : "C05";
         int maxSteps = scripts ? maxStepsScripted : maxStepsFlat;
@@ -477,7 +565,7 @@ int main(int argc, char **argv) {
                    .kv("nestedNotifies", C.nestedNotifies).kv("calls", C.calls).kv("inRoundActions", C.inRoundActions)
                    .kv("staleRejected", C.staleRejected).kv("selfUnsub", C.selfUnsub).kv("unsubOther", C.unsubOther)
                    .kv("lazyRemovals", C.lazyRemovals).kv("handleMoves", C.handleMoves).kv("nontrivialCases", C.nontrivialCases)
-                   .kv("maxDepth", C.maxDepth).kv("tokensDestroyed", C.tokensDestroyed).kv("countdownObservers", C.countdownObservers)
+                   .kv("maxDepth", C.maxDepth).kv("tokensDestroyed", C.tokensDestroyed).kv("countdownObservers", C.countdownObservers).kv("longLifeRuns", C.longLifeRuns).kv("longLifeCycles", C.longLifeCycles).kv("burstObservers", C.burstObservers)
                    .raw("opCount", rt::jsonCounts(C.opCount)).raw("signatures", rt::jsonCounts(C.sigCount))
                    .raw("inRoundActionKinds", rt::jsonCounts(C.actionCount)).raw("samples", rt::jsonArray(C.samples, false)));
     return 0;
